@@ -46,6 +46,7 @@ var c04Fixed = []string{
 	"catch(findall(X, (m(X), X > 1, throw(a(X))), L), a(Y), w(r(Y, L)))",
 	"findall(X, catch((m(X), X > 1, throw(a)), a, X = 0), L), w(L)",
 	"catch(call((m(X), !, throw(a(X)))), a(Y), w(Y))",
+	"catch(h5(X), B, w(B))", "catch(h6(1), error(E, _), w(E))", "catch((n(A), h5(X)), B, w(A-B)), w(after)", "catch(catch(h5(X), nomatch, w(no)), two_cuts(Y), w(outer(Y)))",
 	"catch(h1(X), B, w(B))", "catch(h2(X), B, w(B))", "h3(X)", "catch(h3(X), B, w(B))", "catch(h4(X), B, w(B)), w(X), X > 1, throw(late)",
 	"catch(X is foo + 1, error(E, _), w(E))",
 	"catch(atom_length(1, _), error(type_error(T, V), _), w(T-V))",
@@ -81,6 +82,8 @@ h4(X) :- m(X).
 h4(X) :- throw(h4_second(X)).
 t(K, X) :- m(X), X >= K, throw(big(X)).
 t(_, 0).
+h5(X) :- m(X), !, X > 0, !, throw(two_cuts(X)).
+h6(X) :- integer(X), !, X > 0, !, atom_length(X, foo).
 `
 
 type c04Gen struct {
@@ -236,11 +239,18 @@ func (g *c04Gen) helper() []string {
 		var gs []string
 		k := 1 + g.r.Intn(3)
 		cutAt := g.r.Intn(k + 1)
+		cut2 := -1
+		if g.r.Intn(3) == 0 {
+			cut2 = g.r.Intn(k + 1) // a second (possibly third) cut in the same clause
+		}
 		for j := 0; j < k; j++ {
-			if j == cutAt {
+			if j == cutAt || j == cut2 {
 				gs = append(gs, "!")
 			}
 			gs = append(gs, g.goal(1))
+		}
+		if cut2 == k {
+			gs = append(gs, "!", g.goal(1))
 		}
 		out = append(out, "hh(X0) :- "+strings.Join(gs, ", "))
 	}
